@@ -8,7 +8,7 @@ from ..terms import A, C, F, V, L, NIL, call, conj, TRUE, CUT, show_program, sho
 
 ID = 'C04'
 LEVEL = 'model_checking'
-RULE = ('(a) two engines, generator level: every ordered pair of actor scripts from a menu of 17 (+3 scripts that register ONE shared function object - inferred, with an explicit arity, as unbound and as bound method - paired with each other and with the registering scripts) (create engine, retractall / retract of predicates the engine does not know yet, load '
+RULE = ('(a) two engines, generator level: every ordered pair of actor scripts from a menu of 18 (+3 scripts that register ONE shared function object - inferred, with an explicit arity, as unbound and as bound method - paired with each other and with the registering scripts) (create engine, retractall / retract of predicates the engine does not know yet, load '
         'script with overwrite on/off, assert_fact, register_function, clear, atom, start/next/close of a query or a '
         'retract) x ALL merge orders of their steps (with disjoint vocabularies and, for scripts that clear or intern atoms, with the same atom names on both engines); (b) one engine: every pair (and every triple from a subset) of '
         'side-effect-free queries over disjoint variables (recursion, cut, if-then-else, negation, \\=, once, findall, '
@@ -53,6 +53,9 @@ MENU = [
     [('rstart', 'q'), ('next',), ('retractall', 'q'), ('assert', 'q', 'r3'), ('assert', 'p', 'r4')],
     [('assert', 'p', 'tom'), ('askatom', 'p', 'tom'), ('askatom', 'p', 'tom'), ('askatom', 'p', 'tom')],
     [('atom', 'tom'), ('assert', 'p', 'tom'), ('clear',), ('atom', 'tom'), ('clear',)],
+    # an enumeration of dynamic facts suspended while its own engine asserts to the same predicate
+    # (the logical update view of C14 - with another engine doing anything at all in between)
+    [('assert', 'p', 'a1'), ('start', 'p'), ('next',), ('assert', 'p', 'late'), ('next',)],
     # ONE Python function object (resp. a function and its bound method) registered on several engines
     # in different ways: what an engine calls it by is that engine's own business
     [('regshared', 'explicit-1'), ('count', 'sh', 1), ('count', 'sh', 2)],
@@ -61,7 +64,7 @@ MENU = [
 ]
 
 
-SHARED_FROM = 17
+SHARED_FROM = 18
 
 
 def SHARED(arg1, arg2=None):
